@@ -79,7 +79,7 @@ def euler_bc_params(rng, name, g, W):
     return {'type': name}
 
 
-def rand_config(rng, model=None, n=None, per=None, meshkind=None, scheme=None, flux=None, smooth=False):
+def rand_config(rng, model=None, n=None, per=None, meshkind=None, scheme=None, flux=None, smooth=False, units=None):
     model = model or str(rng.choice(['conv', 'burgers', 'sw', 'euler', 'euler', 'nozzle']))
     n = n or int(rng.integers(1, 9))
     cfg = dict(model=model, n=n)
@@ -118,6 +118,36 @@ def rand_config(rng, model=None, n=None, per=None, meshkind=None, scheme=None, f
             else:
                 nm = str(rng.choice(EULER_BCS))
                 cfg[side] = euler_bc_params(rng, nm, cfg['gamma'], (W[0][idx], W[1][idx], W[2][idx]))
+    if units is None and rng.random() < 0.2:
+        units = (2.0 ** int(rng.integers(-24, 25)), 2.0 ** int(rng.integers(-12, 13)))
+    if units:
+        rescale_units(cfg, units[0], units[1])
+    return cfg
+
+
+def rescale_units(cfg, a, b):
+    """the same problem in other units (density-like quantities *a, velocities *b; powers of two: exact in binary64)"""
+    model = cfg['model']
+    if model == 'conv':
+        cfg['a'] = cfg['a'] * b; fac = [a]
+    elif model == 'burgers':
+        fac = [b]
+    elif model == 'sw':
+        cfg['g'] = cfg['g'] * b * b / a; fac = [a, b]
+    else:
+        fac = [a, b, a * b * b]
+    cfg['prim'] = [[x * fac[k] for x in w] for k, w in enumerate(cfg['prim'])]
+    for side in ('bcL', 'bcR'):
+        bc = cfg[side]
+        if 'prim' in bc:
+            bc['prim'] = [x * fac[k] for k, x in enumerate(bc['prim'])]
+        if 'ptot' in bc:
+            bc['ptot'] = bc['ptot'] * a * b * b
+        if 'rttot' in bc:
+            bc['rttot'] = bc['rttot'] * b * b
+        if 'p' in bc:
+            bc['p'] = bc['p'] * a * b * b
+    cfg['units'] = [a, b]
     return cfg
 
 
